@@ -188,20 +188,24 @@ func (r *Run) HarnessError(format string, args ...any) {
 type harnessAbort struct{}
 
 // Main is the entry point of a harness binary.
-func Main(checks map[string]Check) {
+func Main(checks map[string]Check) { MainArgs(os.Args[1:], checks) }
+
+// MainArgs is Main with explicit arguments (used by the package-main test binary).
+func MainArgs(args []string, checks map[string]Check) {
+	fs := flag.NewFlagSet("harness", flag.ExitOnError)
 	var (
-		prop    = flag.String("prop", "", "property id")
-		tier    = flag.String("tier", "quick", "quick|thorough")
-		shard   = flag.Int("shard", 0, "shard index")
-		nshards = flag.Int("nshards", 1, "number of shards")
-		out     = flag.String("out", "", "result file")
-		known   = flag.String("known", "", "comma-separated known finding ids")
-		replay  = flag.String("replay", "", "replay file")
-		budget  = flag.Duration("budget", 0, "time budget")
-		seed    = flag.Int("seed", 0, "seed (permutes shard assignment only)")
-		list    = flag.Bool("list", false, "list hosted properties")
+		prop    = fs.String("prop", "", "property id")
+		tier    = fs.String("tier", "quick", "quick|thorough")
+		shard   = fs.Int("shard", 0, "shard index")
+		nshards = fs.Int("nshards", 1, "number of shards")
+		out     = fs.String("out", "", "result file")
+		known   = fs.String("known", "", "comma-separated known finding ids")
+		replay  = fs.String("replay", "", "replay file")
+		budget  = fs.Duration("budget", 0, "time budget")
+		seed    = fs.Int("seed", 0, "seed (permutes shard assignment only)")
+		list    = fs.Bool("list", false, "list hosted properties")
 	)
-	flag.Parse()
+	_ = fs.Parse(args)
 	if *list {
 		var ids []string
 		for id := range checks {
@@ -317,4 +321,11 @@ func J(x any) string {
 		return fmt.Sprintf("%+v", x)
 	}
 	return string(b)
+}
+
+// GlobalState records a state that every shard meets (counted once, by shard 0).
+func (r *Run) GlobalState(key string) {
+	if r.Shard == 0 {
+		r.State(key)
+	}
 }
